@@ -612,7 +612,7 @@ def eo3(prog: Program, res: Result) -> None:
     desc = "tovec puts the weights first iff include_weights and then every factor column by column"
     tvn = tv.resolve(tv.node)        # extracted locals (ncomponents = self.ncomponents, nrows = f.shape[0]) read as their definitions
     cond = [n for n in ast.walk(tvn) if isinstance(n, ast.If) and ast.unparse(n.test) == "include_weights"]
-    wfirst = any("[0:self.ncomponents]=self.weights" in ast.unparse(s).replace(" ", "") for c in cond for s in c.body)
+    wfirst = any("[:self.ncomponents]=self.weights" in ast.unparse(s).replace(" ", "") for c in cond for s in c.body)
     colwise = any(isinstance(n, ast.For) and "f[:, r]" in ast.unparse(n) and "range(self.ncomponents)" in ast.unparse(n.iter) for n in ast.walk(tvn))
     outer = any(isinstance(n, ast.For) and ast.unparse(n.iter) == "self.factor_matrices" for n in ast.walk(tvn))
     if wfirst and colwise and outer:
@@ -722,6 +722,17 @@ def scale(prog: Program, res: Result) -> None:
         if fi.cls == "ktensor" and not fi.parent and fi.module == "pyttb.ktensor":
             methods[fi.name] = A_.dealias_factors(fi.node)
             fis[fi.name] = fi
+            # conditions read like their definitions (mode_ok = isinstance(mode, int) and ..; if mode_ok:)
+            # (only FLAGS are replaced - locals defined by a comparison / boolean expression / predicate call, and the plain values they
+            # name; numeric locals such as a column norm keep their names: the interpreter binds them to symbols)
+            sd = fi.single_defs()
+            flags = {k for k, v in sd.items() if isinstance(v, (ast.Compare, ast.BoolOp)) or (isinstance(v, ast.UnaryOp) and isinstance(v.op, ast.Not))
+                     or (isinstance(v, ast.Call) and (dotted(v.func) or "").split(".")[-1] in ("isinstance", "array_equal", "all", "any", "isin"))}
+            consts_ = {k for k, v in sd.items() if isinstance(v, ast.Call) and (dotted(v.func) or "").split(".")[-1] in ("ones", "ones_like")}
+            keep = tuple(k for k in sd if k not in flags and k not in consts_)
+            for n_ in ast.walk(methods[fi.name]):
+                if isinstance(n_, (ast.If, ast.While)) and any(isinstance(x, ast.Name) and x.id in (flags | consts_) for x in ast.walk(n_.test)):
+                    n_.test = fi.resolve(n_.test, keep=keep)
     it = KS.Interp(methods)
     plan = [("normalize", "same"), ("redistribute", "same"), ("tolist", "list"), ("__neg__", "neg"), ("__mul__", "mul")]
     for name, kind in plan:
